@@ -302,7 +302,7 @@ PROPS["C05"] = {
     ],
     "assumptions": ["text inputs are ASCII (every byte < 0x80)"],
     "not_covered": "the composed parser on whole filters, stack depth on long inputs, Display formatting, multi-byte "
-                   "characters, the IP/regex sub-lexers",
+                   "characters beyond the two kernels that take them (lexer helpers, invalid-escape span), the IP/regex sub-lexers",
 }
 
 PROPS["C04"] = {
@@ -376,7 +376,8 @@ PROPS["C10"] = {
          "oracle": "naive window search", "min_covers": 4},
     ],
     "not_covered": "16/32-byte block boundaries, needles > 4 in haystacks longer than the needle, the boxed searcher "
-                   "(> 16 bytes), the USE_AVX2 latch itself and the scalar memchr/memmem paths (cpuid is not executable under Kani)",
+                   "(> 16 bytes), the USE_AVX2 latch itself, memchr::memchr's own implementation (replaced by its contract) and "
+                   "memmem's vector paths for values >= 16 bytes (cpuid is not executable under Kani)",
 }
 
 PROPS["C11"] = {
@@ -573,6 +574,23 @@ for _n, _t in ((0, "quick"), (2, "quick"), (3, "thorough")):
         _h["core"] = False
     _define("C10", _CMP_MOD, _h)
 
+for _name, _n, _sym in (("c10_contains_dispatch_n1", 1, "one-byte pattern, SIMD latch symbolic (either value)"),
+                        ("c10_contains_scalar_n2", 2, "2-byte pattern, SIMD latch off"),
+                        ("c10_contains_scalar_n3", 3, "3-byte pattern, SIMD latch off")):
+    _define("C10", _CMP_MOD, {
+        "name": _name, "mod": "verif_kani_cmp", "big": True, "timeout": 1800, "mem_gb": 24, "rss_gb": 8,
+        "encodes": ["ComparisonExpr::compile_with_compiler (Contains arm: single-byte shortcut / fall-through to the scalar searcher)",
+                    "<sliceslice::MemchrSearcher as Compare>::compare" if _n == 1 else "MemmemSearcher::new, <MemmemSearcher as Compare>::compare",
+                    "sliceslice::MemchrSearcher::search_in" if _n == 1 else
+                    "memchr::memmem::FinderBuilder::build_forward_owned, Finder::find, Searcher::new/find (SSE2 kind), rabinkarp::Finder::new/find"],
+        "symbolic": "%s, every value <= 4 bytes" % _sym, "bound": "pattern %d, value <= 4, unwind 8" % _n,
+        "oracle": "naive substring search; no SIMD anchor drawn; absent value => false", "min_covers": 3,
+        "stubs": ["IndexExpr::compile_with -> harness continuation", "rand::rngs::thread::rng -> unreachable",
+                  "memchr::memchr -> its contract (index of the first occurrence; the real one dispatches on cpuid)",
+                  "memchr::arch::x86_64::avx2::packedpair::Finder::with_pair -> None (AVX2 availability is a cpuid query)",
+                  "rewrite R2: `if *USE_AVX2 {` -> harness flag", "rewrite R1"],
+        **({"tier": "thorough", "core": False} if _name.endswith("scalar_n3") else {})})
+
 PROPS["C12"] = {
     "crate": "engine",
     "modules": [
@@ -628,6 +646,16 @@ _define("C11", {"mod": "verif_kani_c11", "host": "engine/src/rhs_types/wildcard.
     "symbolic": "pattern of exactly 4 bytes over {a,*,\\}, star limit usize", "bound": "pattern 4, unwind 8",
     "oracle": "accepted iff escapes valid, no two adjacent unescaped stars, stars <= limit; error kind names the reason",
     "min_covers": 4})
+_define("C11", _CMP_MOD, {
+    "name": "c11_matches_arm", "mod": "verif_kani_cmp", "big": True, "timeout": 1500, "mem_gb": 24, "rss_gb": 8,
+    "encodes": ["ComparisonExpr::compile_with_compiler (Matches arm, nil default)", "<rhs_types::Regex as Compare>::compare",
+                "rhs_types::regex::imp_real::Regex::is_match", "regex_automata::Input::from(&[u8])"],
+    "symbolic": "value <= 2 arbitrary bytes, the engine's answer (bool), nil-not-equal setting", "bound": "value <= 2, unwind 4",
+    "oracle": "result == the engine's answer; engine asked once about exactly the value's bytes, unanchored, whole span; absent => false",
+    "min_covers": 2,
+    "stubs": ["IndexExpr::compile_with -> harness continuation", "rand::rngs::thread::rng -> unreachable",
+              "regex_automata::meta::Regex::is_match -> recording oracle with an arbitrary answer (the regex engine itself is NOT encoded)",
+              "the engine-side Regex value is an uninitialised placeholder (never read: every use goes through the stub)"]})
 _share("C11", "c13_nesting_step")
 
 _define("C17", {"mod": "verif_kani_c17", "host": "engine/src/list_matcher.rs", "file": "engine/c17_lists.rs"}, {
@@ -637,6 +665,20 @@ _define("C17", {"mod": "verif_kani_c17", "host": "engine/src/list_matcher.rs", "
     "min_covers": 4})
 
 _C06_MOD = {"mod": "verif_kani_c06", "host": "engine/src/rhs_types/bytes.rs", "file": "engine/c06_bytes.rs"}
+_define("C05", {"mod": "verif_kani_c05_lex", "host": "engine/src/lex.rs", "file": "engine/c05_lex.rs"}, {
+    "name": "c05_take_non_ascii", "mod": "verif_kani_c05_lex", "timeout": 1200, "mem_gb": 12,
+    "encodes": ["lex::take", "lex::take_while", "lex::span", "lex::skip_space", "core::str::Chars::next (UTF-8 decoder)"],
+    "symbolic": "every 2-byte UTF-8 character, optionally followed by any ASCII character; count 0..=3",
+    "bound": "<= 2 characters (3 bytes), unwind 5",
+    "oracle": "spans count characters and end on character boundaries; consumed ++ rest == input; no panic", "min_covers": 3})
+for _w in (2, 3):
+    _define("C05", _C06_MOD, {
+        "name": "c05_escape_non_ascii_w%d" % _w, "mod": "verif_kani_c06", "timeout": 1500, "mem_gb": 30, "rss_gb": 20,
+        "encodes": ["rhs_types::bytes::lex_quoted_string_as_vec (escape arm, error span slicing)", "core::str::Chars::next (UTF-8 decoder)"],
+        "symbolic": "backslash + every %d-byte UTF-8 character%s + closing quote" % (_w, "" if _w == 2 else " with lead byte E1..EC"),
+        "bound": "%d bytes of text, unwind 2" % (_w + 2),
+        "oracle": "Err(InvalidCharacterEscape) whose span is exactly the escaped character; no panic (char-boundary slicing)",
+        "min_covers": 2, **({} if _w == 2 else {"tier": "thorough", "core": False})})
 _define("C06", _C06_MOD, {
     "name": "c06_int_range_rule", "mod": "verif_kani_c06", "timeout": 1200, "mem_gb": 28, "rss_gb": 16,
     "encodes": ["<IntRange as Lex>::lex"], "symbolic": "both bound values (full i64)",
